@@ -236,7 +236,7 @@ theorem iteration {s : State κ ν} {x : Item κ ν} (h : Ready s x) (hpc : s.pc
     step_pollNone (r := m) rfl (show s.stopClosed = false from stopClosed_false h) hreset
   have hdue : m.time - s.now < halfMs := by
     have := h.due
-    simp only [halfMs]; omega
+    simp only [halfMs, Kit.Generated.C06.runNowMarginNs]; omega
   have h3 : M.step { s with pc := Pc.polled m } .decide = _ := step_decide_fire (r := m) rfl hdue
   have h4 : M.step { s with pc := Pc.firing m } (.execCheck (some m)) = _ := step_exec_pop (r := m) rfl hm
   have h5 : M.step { s with q := pop s.q m, pc := Pc.popped m, log := Event.pop m :: s.log } .cbStart = _ :=
